@@ -433,6 +433,16 @@ def compute_covariance_xy(seperation, subap1_diam, subap2_diam, r0, L0):
 
     return Cxy
 
+# Coefficients of the ascending series of 1 - 2^(1-nu)/Gamma(nu) x^nu K_nu(x), nu = 5/6,
+# in h2 = (x/2)^2 (highest power first, for numpy.polyval):
+#   pi/(sin(nu pi) Gamma(nu)) * [ h2^nu sum_k h2^k/(k! Gamma(k+nu+1)) - sum_{k>=1} h2^k/(k! Gamma(k-nu+1)) ]
+_VK_NU = 5. / 6.
+_VK_C = 2 ** (1 - _VK_NU) / scipy.special.gamma(_VK_NU)
+_VK_PREF = numpy.pi / (numpy.sin(_VK_NU * numpy.pi) * scipy.special.gamma(_VK_NU))
+_VK_PLUS = numpy.array([1. / (scipy.special.gamma(k + 1.) * scipy.special.gamma(k + _VK_NU + 1)) for k in range(12)][::-1])
+_VK_MINUS = numpy.array([1. / (scipy.special.gamma(k + 1.) * scipy.special.gamma(k - _VK_NU + 1)) for k in range(1, 13)][::-1])
+
+
 def structure_function_vk(seperation, r0, L0):
     """
     Computes the Von Karmon structure function of atmospheric turbulence
@@ -453,31 +463,28 @@ def structure_function_vk(seperation, r0, L0):
     L0 = numpy.asarray(L0, dtype=numpy.float64)[()]
 
     # x = 2 pi r / L0;  D = 0.17253 (L0/r0)^(5/3) (1 - 2^(1/6)/Gamma(5/6) x^(5/6) K_5/6(x))
-    x = 2 * numpy.pi * seperation / L0
-    nu = 5. / 6.
+    x = numpy.asarray(2 * numpy.pi * seperation / L0, dtype=numpy.float64)
+    bracket = numpy.zeros(x.shape)
 
-    # For x > 1 the bracket is evaluated as written
-    with numpy.errstate(invalid="ignore", divide="ignore", over="ignore"):
-        direct = 1 - 2 ** (1 - nu) / scipy.special.gamma(nu) * x ** nu * scipy.special.kv(nu, x)
+    # For x >= 1 the bracket is evaluated as written
+    large = x >= 1
+    if large.any():
+        xl = x[large]
+        with numpy.errstate(over="ignore"):
+            bracket[large] = 1 - _VK_C * xl ** _VK_NU * scipy.special.kv(_VK_NU, xl)
 
     # For small x it is 1 - 1 + O(x^(5/3)): the leading terms cancel and the
     # rounding error of the Bessel term, multiplied by (L0/r0)^(5/3), swamps the
     # result for a large outer scale (2.6 % at L0 = 1e8 m, r = 0.1 m). Use the
     # ascending series of K_nu = pi/(2 sin(nu pi)) (I_-nu - I_nu), in which the
-    # leading 1 cancels analytically
-    xs = numpy.where(x < 1, x, 0.)
-    s_minus = numpy.zeros_like(xs)
-    s_plus = numpy.zeros_like(xs)
-    for k in range(12):
-        if k >= 1:
-            s_minus += (xs / 2) ** (2 * k) / (scipy.special.gamma(k + 1.) * scipy.special.gamma(k - nu + 1))
-        s_plus += (xs / 2) ** (2 * k + 2 * nu) / (scipy.special.gamma(k + 1.) * scipy.special.gamma(k + nu + 1))
-    series = numpy.pi / (numpy.sin(nu * numpy.pi) * scipy.special.gamma(nu)) * (s_plus - s_minus)
+    # leading 1 cancels analytically (and which is exactly 0 at x = 0)
+    small = ~large & ~numpy.isnan(x)
+    if small.any():
+        h2 = (x[small] / 2) ** 2
+        bracket[small] = _VK_PREF * (h2 ** _VK_NU * numpy.polyval(_VK_PLUS, h2) - h2 * numpy.polyval(_VK_MINUS, h2))
+    bracket[numpy.isnan(x)] = numpy.nan
 
-    D_vk = 0.17253 * (L0 / r0) ** (5. / 3.) * numpy.where(x < 1, series, direct)
-
-    # At zero separation the structure function is 0 (the series gives exactly that)
-    D_vk = numpy.where(numpy.equal(seperation, 0), 0., D_vk)[()]
+    D_vk = (0.17253 * (L0 / r0) ** (5. / 3.) * bracket)[()]
 
     return D_vk
 
@@ -544,11 +551,15 @@ def mirror_covariance_matrix(cov_mat):
     # two is exactly +0: in the blocks of a WFS with itself both are filled, and
     # rounding residues of analytically zero elements turn into arbitrarily
     # large numbers (3.3e-24 | -6.5e-17 = -0.031)
-    cov_mat = numpy.asarray(cov_mat)
-    below = numpy.tril(cov_mat, -1)
-    above = numpy.triu(cov_mat, 1)
-    above = numpy.where(below.T != 0, below.T, above)
-    return above + above.T + numpy.diag(numpy.diag(cov_mat))
+    # (row by row on one copy: whole-matrix temporaries would cost several times
+    # the memory of the matrix, which is gigabytes for ELT-sized systems)
+    mirrored = numpy.array(cov_mat)
+    for i in range(mirrored.shape[0] - 1):
+        column = mirrored[i + 1:, i]
+        row = mirrored[i, i + 1:]
+        row[...] = numpy.where(column != 0, column, row)
+        column[...] = row
+    return mirrored
 
 def create_tomographic_covariance_reconstructor(covariance_matrix, n_onaxis_subaps, svd_conditioning=0):
     """
